@@ -1,6 +1,7 @@
 package props
 
 import (
+	"fmt"
 	"go/ast"
 	"go/token"
 	"go/types"
@@ -55,4 +56,77 @@ func messageDispatch(c *core.Ctx) {
 				"the handler "+sel.Sel.Name+" runs where the message type is not established to be "+constName+" (default clause, or a clause shared with other types): a message of another type drives the transition reserved for "+constName+" — e.g. an UPDATE in OpenConfirm establishes the session instead of raising an FSM error")
 		}
 	}
+}
+
+// holdTimerNeedsNonZeroHoldTime: RFC 4271 §4.2/§8 — with a negotiated hold time of zero the hold timer is not started,
+// so the states that run with the negotiated value (OpenConfirm, Established) have no HoldTimer_Expires event then.
+// Every call of a holdTimerExpired method of those states must be controlled by a condition with a conjunct that
+// excludes hold time 0: `holdTime != 0` / `holdTime > 0`, or `keepaliveTimer != nil` (the keepalive timer is created
+// exactly when the negotiated hold time is not zero).
+func holdTimerNeedsNonZeroHoldTime(c *core.Ctx) {
+	const rule = "hold-timer-runs-only-with-nonzero-hold-time"
+	p := c.P
+	ht := p.Field(srv, "FSM", "holdTime")
+	ka := p.Field(srv, "FSM", "keepaliveTimer")
+	c.Check(ht != nil && ka != nil, rule, "FSM.holdTime / FSM.keepaliveTimer", 0, "fields not found")
+	n := 0
+	for _, st := range []string{"openConfirmState", "establishedState"} {
+		for _, f := range p.MethodsOf(srv, st) {
+			if f.Decl.Body == nil {
+				continue
+			}
+			for _, call := range core.Calls(f.Pkg, f.Decl.Body, func(o *types.Func) bool { return o.Name() == "holdTimerExpired" && core.RecvName(o) == st }) {
+				n++
+				c.Analysed(f)
+				ok := false
+				for _, ft := range core.CtlFactsAt(f, call) {
+					if ft.Expr == nil {
+						continue
+					}
+					var leaf func(e ast.Expr, truth bool)
+					leaf = func(e ast.Expr, truth bool) {
+						e = core.Unparen(e)
+						if u, isU := e.(*ast.UnaryExpr); isU && u.Op == token.NOT {
+							leaf(u.X, !truth)
+							return
+						}
+						be, isB := e.(*ast.BinaryExpr)
+						if !isB {
+							return
+						}
+						if be.Op == token.LAND && truth || be.Op == token.LOR && !truth {
+							leaf(be.X, truth)
+							leaf(be.Y, truth)
+							return
+						}
+						op := be.Op
+						if !truth {
+							switch op {
+							case token.EQL:
+								op = token.NEQ
+							case token.NEQ:
+								op = token.EQL
+							case token.LEQ:
+								op = token.GTR
+							case token.GTR:
+								op = token.LEQ
+							}
+						}
+						if core.FieldOf(f.Pkg, be.X) == ht && ht != nil {
+							if v := core.ConstOf(f.Pkg, be.Y); v != nil && v.ExactString() == "0" && (op == token.NEQ || op == token.GTR) {
+								ok = true
+							}
+						}
+						if core.FieldOf(f.Pkg, be.X) == ka && ka != nil && op == token.NEQ && core.IsNilIdent(f.Pkg, be.Y) {
+							ok = true
+						}
+					}
+					leaf(ft.Expr, ft.Truth)
+				}
+				c.Check(ok, rule, fmt.Sprintf("%s hold timer expiry #%d", f.Name(), n), call.Pos(),
+					"the hold timer is declared expired under a condition that also holds for a negotiated hold time of zero (time since the last message > 0): RFC 4271 starts no hold timer then — the session leaves "+st[:len(st)-5]+" through an event the abstract FSM does not have")
+			}
+		}
+	}
+	c.Check(n >= 2, rule, "hold timer expiry call sites found", 0, fmt.Sprintf("found %d, expected OpenConfirm and Established", n))
 }
